@@ -876,6 +876,18 @@ pub fn run(tier: Tier) -> RunOutcome {
                 }
             }
         }
+        // damage that leaves the JSON document itself intact (e.g. a lost trailing newline,
+        // if the writer emits one) is not a corruption of the stored problem
+        if serde_json::from_slice::<Value>(&cor).map(|v| v == doc).unwrap_or(false) {
+            probe("c19_damage_left_document_intact");
+            if let LoadOutcome::Panic(p) = load_bytes(&fpath, &cor) {
+                out.violations.push(Violation::new(
+                    "C19.load_panic",
+                    format!("{:?} on a {}-byte file: load_from_file panicked: {}", f, len, p),
+                ));
+            }
+            continue;
+        }
         let r = load_bytes(&fpath, &cor);
         match r {
             LoadOutcome::Panic(p) => {
